@@ -34,3 +34,79 @@ package lower
 //@   ensures [nan] isnan(v) ==> isnan(result)
 //@   pure
 //@   nopanic
+//
+// ---- literal carriers -----------------------------------------------------------------
+//
+//@ func literalToI64
+//@   mode bv
+//@   tags C06
+//@   ensures [i32] is(v, ir.LiteralI32) ==> result1 && result0 == int64(int32(v.(ir.LiteralI32)))
+//@   ensures [u32] is(v, ir.LiteralU32) ==> result1 && result0 == int64(uint32(v.(ir.LiteralU32)))
+//@   ensures [aint] is(v, ir.LiteralAbstractInt) ==> result1 && result0 == int64(v.(ir.LiteralAbstractInt))
+//@   ensures [not-int] is(v, ir.LiteralF32) || is(v, ir.LiteralF16) || is(v, ir.LiteralAbstractFloat) || is(v, ir.LiteralBool) ==> !result1
+//@   pure
+//@   nopanic
+//
+//@ func literalToF64
+//@   mode bv
+//@   tags C06
+//@   ensures [f32] is(v, ir.LiteralF32) ==> result1 && same(result0, float64(float32(v.(ir.LiteralF32))))
+//@   ensures [f16] is(v, ir.LiteralF16) ==> result1 && same(result0, float64(float32(v.(ir.LiteralF16))))
+//@   ensures [afloat] is(v, ir.LiteralAbstractFloat) ==> result1 && same(result0, float64(v.(ir.LiteralAbstractFloat)))
+//@   ensures [not-float] is(v, ir.LiteralI32) || is(v, ir.LiteralU32) || is(v, ir.LiteralAbstractInt) || is(v, ir.LiteralBool) ==> !result1
+//@   pure
+//@   nopanic
+//
+// A folded integer result is stored in the operand's type: i32/u32 keep the low
+// 32 bits (two's complement wrap-around, as the run-time operation does).
+//
+//@ func makeIntLiteral
+//@   mode bv
+//@   tags C06
+//@   ensures [i32] is(template, ir.LiteralI32) ==> is(result, ir.LiteralI32) && int32(result.(ir.LiteralI32)) == int32(val)
+//@   ensures [u32] is(template, ir.LiteralU32) ==> is(result, ir.LiteralU32) && uint32(result.(ir.LiteralU32)) == uint32(val)
+//@   ensures [aint] is(template, ir.LiteralAbstractInt) ==> is(result, ir.LiteralAbstractInt) && int64(result.(ir.LiteralAbstractInt)) == val
+//@   pure
+//@   nopanic
+//
+// A folded float result is rounded once to the operand's type (f32: RNE to
+// binary32; f16: RNE to binary16, held in a float32; abstract: kept as f64).
+//
+//@ func makeFloatLiteral
+//@   mode bv
+//@   tags C06
+//@   ensures [f32] is(template, ir.LiteralF32) ==> is(result, ir.LiteralF32) && same(float32(result.(ir.LiteralF32)), float32(val))
+//@   ensures [afloat] is(template, ir.LiteralAbstractFloat) ==> is(result, ir.LiteralAbstractFloat) && same(float64(result.(ir.LiteralAbstractFloat)), val)
+//@   ensures [f16] is(template, ir.LiteralF16) && !isnan(val) ==> is(result, ir.LiteralF16) && same(float32(result.(ir.LiteralF16)), halftof32(tohalf(float32(val))))
+//@   pure
+//@   nopanic
+//
+// ---- constant folding of binary operators (C06) ------------------------------------------
+//
+// Whenever tryFoldBinaryOp folds, the value it stores is the WGSL value of the
+// operator on the operand values (integers: two's complement in 64-bit
+// carriers, truncating / and %, comparison results as bool; floats: IEEE
+// operation on the carrier, % = a - b*trunc(a/b)).
+//
+//@ func (*Lowerer).tryFoldBinaryOp
+//@   mode bv
+//@   tags C06
+//@   at makeIntLiteral assert [int-add] op == ir.BinaryAdd ==> arg1 == vl + vr
+//@   at makeIntLiteral assert [int-sub] op == ir.BinarySubtract ==> arg1 == vl - vr
+//@   at makeIntLiteral assert [int-mul] op == ir.BinaryMultiply ==> arg1 == vl * vr
+//@   at makeIntLiteral assert [int-div] op == ir.BinaryDivide ==> vr != 0 && arg1 == vl / vr
+//@   at makeIntLiteral assert [int-mod] op == ir.BinaryModulo ==> vr != 0 && arg1 == vl % vr
+//@   at makeIntLiteral assert [int-and] op == ir.BinaryAnd ==> arg1 == vl & vr
+//@   at makeIntLiteral assert [int-or] op == ir.BinaryInclusiveOr ==> arg1 == vl | vr
+//@   at makeIntLiteral assert [int-xor] op == ir.BinaryExclusiveOr ==> arg1 == vl ^ vr
+//@   at makeIntLiteral assert [int-template] arg0 == litL
+//@   at makeFloatLiteral assert [float-add] op == ir.BinaryAdd ==> same(arg1, vl + vr)
+//@   at makeFloatLiteral assert [float-sub] op == ir.BinarySubtract ==> same(arg1, vl - vr)
+//@   at makeFloatLiteral assert [float-mul] op == ir.BinaryMultiply ==> same(arg1, vl * vr)
+//@   at makeFloatLiteral assert [float-div] op == ir.BinaryDivide ==> same(arg1, vl / vr)
+//@   at makeFloatLiteral assert [float-mod] op == ir.BinaryModulo ==> same(arg1, vl - fptrunc(vl / vr) * vr)
+//@   at makeFloatLiteral assert [mixed-add] op == ir.BinaryAdd ==> same(arg1, fL + fR)
+//@   at makeFloatLiteral assert [mixed-sub] op == ir.BinarySubtract ==> same(arg1, fL - fR)
+//@   at makeFloatLiteral assert [mixed-mul] op == ir.BinaryMultiply ==> same(arg1, fL * fR)
+//@   at makeFloatLiteral assert [mixed-div] op == ir.BinaryDivide ==> same(arg1, fL / fR)
+//@   at makeFloatLiteral assert [mixed-mod] op == ir.BinaryModulo ==> same(arg1, fL - fptrunc(fL / fR) * fR)
